@@ -392,7 +392,31 @@ def custom_configs():
         dict(operators=['square', 'cube'], otype=Otype.UNARY),
         dict(operators=['add'], otype=Otype.BINARY),
     ]
-    return {"strcfg": (ops_str, steps_str), "unarycfg": (ops_un, steps_un)}
+    # a custom table in which symbols share their leading characters and one is a prefix of the other
+    # (the longer one first, as the tokeniser requires)
+    from scinumtools.solver import OperatorGe, OperatorAnd, OperatorOr, OperatorPar
+
+    class OperatorShiftEq(OperatorGe):
+        symbol: str = '>>='
+
+    class OperatorShift(OperatorGt):
+        symbol: str = '>>'
+
+    class OperatorAndNot(OperatorOr):
+        symbol: str = 'andnot'
+
+    class OperatorAndWord(OperatorAnd):
+        symbol: str = 'and'
+
+    ops_px = {'shifteq': OperatorShiftEq, 'shift': OperatorShift, 'andnot': OperatorAndNot, 'and': OperatorAndWord,
+              'add': OperatorAdd, 'par': OperatorPar}
+    steps_px = [
+        dict(operators=['par'], otype=Otype.ARGS),
+        dict(operators=['add'], otype=Otype.BINARY),
+        dict(operators=['shifteq', 'shift'], otype=Otype.BINARY),
+        dict(operators=['andnot', 'and'], otype=Otype.BINARY),
+    ]
+    return {"strcfg": (ops_str, steps_str), "unarycfg": (ops_un, steps_un), "prefixcfg": (ops_px, steps_px)}
 
 
 HEADER = """/- GENERATED by harness/props/%s from the live classes of the repository. DO NOT EDIT. -/
